@@ -60,10 +60,14 @@ func c15Value(keyIdx, l int) []byte {
 }
 
 type c15Case struct {
-	Mode   string `json:"mode"`             // "set" | "state"
+	Mode   string `json:"mode"`             // "set" | "state" | "lattice"
 	Subset []int  `json:"subset,omitempty"` // key indices
 	Lens   []int  `json:"lens,omitempty"`   // value length per subset member
 	State  int    `json:"state,omitempty"`
+	// lattice
+	N       int    `json:"n,omitempty"`
+	Pattern string `json:"pattern,omitempty"`
+	Mix     string `json:"mix,omitempty"`
 }
 
 func c15MaxPrefix(keys [][]byte, subset []int) string {
@@ -306,6 +310,147 @@ func c15RunState(r *vlib.Run, idx int) {
 	}
 }
 
+// ---- size lattice (NOT complete: a lattice of sizes x key-shape patterns) ----
+//
+// Large entry sets reach code paths the <= 5-key enumeration cannot (size
+// thresholds, bucketing by leading key bits). Keys are pseudo-random (Blake2b of
+// a counter) with the leading nibble / leading bytes forced by the pattern.
+
+var c15LatticePatterns = []string{"nib-all", "nib-0", "nib-0,1", "nib-0,15", "nib-7,8", "nib-even", "prefix-1", "prefix-2", "prefix-3"}
+
+func c15LatticeSizes(thorough bool) []int {
+	s := []int{6, 16, 17, 255, 256, 257, 1023, 1024, 1025, 1500}
+	if thorough {
+		s = append(s, 4096)
+	}
+	return s
+}
+
+func c15LatticeKeys(n int, pattern string) [][]byte {
+	var nibbles []int
+	prefix := 0
+	switch pattern {
+	case "nib-all":
+		for i := 0; i < 16; i++ {
+			nibbles = append(nibbles, i)
+		}
+	case "nib-0":
+		nibbles = []int{0}
+	case "nib-0,1":
+		nibbles = []int{0, 1}
+	case "nib-0,15":
+		nibbles = []int{0, 15}
+	case "nib-7,8":
+		nibbles = []int{7, 8}
+	case "nib-even":
+		nibbles = []int{0, 2, 4, 6, 8, 10, 12, 14}
+	case "prefix-1":
+		prefix = 1
+	case "prefix-2":
+		prefix = 2
+	case "prefix-3":
+		prefix = 3
+	default:
+		panic("c15: unknown lattice pattern " + pattern)
+	}
+	fixed := []byte{0xA5, 0x5A, 0xC3}
+	seen := map[string]bool{}
+	var keys [][]byte
+	for ctr := 0; len(keys) < n; ctr++ {
+		h := reftrie.H([]byte(fmt.Sprintf("c15-lattice-%s-%d", pattern, ctr)))
+		k := append([]byte(nil), h[:31]...)
+		if nibbles != nil {
+			k[0] = byte(nibbles[ctr%len(nibbles)]<<4) | k[0]&0x0F
+		}
+		copy(k, fixed[:prefix])
+		if seen[string(k)] {
+			continue
+		}
+		seen[string(k)] = true
+		keys = append(keys, k)
+	}
+	return keys
+}
+
+func c15LatticeValue(i int, mix string) []byte {
+	l := c15ValueLens[i%len(c15ValueLens)]
+	if mix == "boundary" {
+		l = 32 + i%2
+	}
+	return c15Value(i, l)
+}
+
+func c15RunLattice(r *vlib.Run, c c15Case) {
+	keys := c15LatticeKeys(c.N, c.Pattern)
+	ref := make([]reftrie.Entry, c.N)
+	kvs := make(types.StateKeyVals, c.N)
+	for i, k := range keys {
+		v := c15LatticeValue(i, c.Mix)
+		ref[i] = reftrie.Entry{Key: k, Value: v}
+		copy(kvs[i].Key[:], k)
+		kvs[i].Value = types.ByteSequence(v)
+	}
+	want, st := reftrie.RootStats(ref)
+	sizeClass := "<1024"
+	if c.N >= 1024 {
+		sizeClass = ">=1024"
+	}
+	r.Class(fmt.Sprintf("lattice n%s pattern=%s mix=%s hashed>0=%v", sizeClass, c.Pattern, c.Mix, st.Hashed > 0))
+	key := fmt.Sprintf("lattice;n%s;%s", sizeClass, c.Pattern)
+	// two supply orders: ascending by key, and a stride permutation of the generation order
+	sorted := make(types.StateKeyVals, c.N)
+	copy(sorted, kvs)
+	sort.Slice(sorted, func(i, j int) bool { return bytes.Compare(sorted[i].Key[:], sorted[j].Key[:]) < 0 })
+	gcd := func(a, b int) int {
+		for b != 0 {
+			a, b = b, a%b
+		}
+		return a
+	}
+	stride := 7
+	for gcd(stride, c.N) != 1 {
+		stride += 2
+	}
+	strided := make(types.StateKeyVals, c.N)
+	for i := range strided {
+		strided[i] = kvs[(i*stride+3)%c.N] // a permutation of the generation order
+	}
+	for oi, in := range []types.StateKeyVals{sorted, strided} {
+		order := []string{"sorted", "strided"}[oi]
+		snapshot := make([]types.StateKey, c.N)
+		for i := range in {
+			snapshot[i] = in[i].Key
+		}
+		var got, got2 types.StateRoot
+		panicked, msg, site := vlib.Guard(func() {
+			got = MerklizationSerializedState(in)
+			got2 = MerklizationSerializedStateWithCache(in, nil)
+		})
+		r.Eval()
+		r.Space(1)
+		r.TransitionN(2)
+		if panicked {
+			r.Violation("merklization."+site, "go-panic", key, fmt.Sprintf("%+v order %s: %s", c, order, msg), c)
+			continue
+		}
+		for i := range in {
+			if in[i].Key != snapshot[i] {
+				r.Violation("merklization.MerklizationSerializedState", "input-reordered", key, fmt.Sprintf("%+v order %s: the caller's entry list was permuted", c, order), c)
+				break
+			}
+		}
+		if [32]byte(got) != want {
+			r.Violation("merklization.MerklizationSerializedState", "root-mismatch", key, fmt.Sprintf("n=%d pattern=%s mix=%s order=%s: got %x, R-trie %x (trie: %+v)", c.N, c.Pattern, c.Mix, order, got[:], want[:], st), c)
+		}
+		if [32]byte(got2) != want {
+			r.Violation("merklization.MerklizationSerializedStateWithCache(nil)", "root-mismatch", key, fmt.Sprintf("n=%d pattern=%s mix=%s order=%s: got %x, R-trie %x", c.N, c.Pattern, c.Mix, order, got2[:], want[:]), c)
+		}
+	}
+	if r.WantSample() && c.N >= 1024 {
+		r.Sample(map[string]interface{}{"lattice_n": c.N, "pattern": c.Pattern, "mix": c.Mix, "root": vlib.Hex(want[:]), "trie": st})
+	}
+}
+
 func TestVerif_C15(t *testing.T) {
 	r := vlib.Start(t, "C15")
 	defer r.Finish()
@@ -325,6 +470,8 @@ func TestVerif_C15(t *testing.T) {
 	if r.IsReplay(&rc) {
 		if rc.Mode == "state" {
 			c15RunState(r, rc.State)
+		} else if rc.Mode == "lattice" {
+			c15RunLattice(r, rc)
 		} else {
 			c15RunSet(r, keys, rc)
 		}
@@ -361,5 +508,17 @@ func TestVerif_C15(t *testing.T) {
 			continue
 		}
 		c15RunState(r, i)
+	}
+	// size lattice (a lattice, not a complete enumeration)
+	for _, n := range c15LatticeSizes(r.Thorough()) {
+		for _, pat := range c15LatticePatterns {
+			for _, mix := range []string{"cycle", "boundary"} {
+				idx++
+				if !r.Mine(idx) {
+					continue
+				}
+				c15RunLattice(r, c15Case{Mode: "lattice", N: n, Pattern: pat, Mix: mix})
+			}
+		}
 	}
 }
